@@ -526,7 +526,7 @@ class Sched:
             if okv is not True:
                 fail('C06', 'no-failure-but-unsuccessful', 'no command failed, yet the build is not reported successful')
         # containment / budget
-        if anyfail and not mon.interrupted and 'C05' in G:
+        if anyfail and not mon.interrupted and ('C05' in G or 'C06' in G):
             # wanted steps not downstream of a failure must be brought up to date unless the budget was reached
             down = set()
             changed = True
@@ -543,6 +543,7 @@ class Sched:
                 for b in mon.wanted:
                     if b not in down and states[b] != 'Done':
                         fail('C05', 'independent-step-abandoned', 'budget not reached, yet wanted step %d (not downstream of a failure) is left %s' % (b, states[b]))
+                        fail('C06', 'stopped-with-runnable-work', 'the build stopped although step %d (not downstream of a failure) could still run: it is left %s' % (b, states[b]))
         for b in range(self.shape.nb):
             if mon.failed[b] and b in mon.recorded:
                 fail('C05', 'failed-step-recorded', 'failed step %d was recorded as up to date' % b)
@@ -803,6 +804,7 @@ def trace_violations(H, nat, model):
         for b in clos:
             if b not in down and fs[b] != 'Done':
                 out.add('C05:independent-step-abandoned')
+                out.add('C06:stopped-with-runnable-work')
     if nat['tasks_run'] != nsucc:
         out.add('C19:tasks-run')
     # counts per state are compared against the final states only through the update events' invariants above
